@@ -140,6 +140,10 @@ pub trait Property: Sync {
     fn in_domain(&self, _case: &Value) -> bool {
         true
     }
+    /// false when cases cannot be shrunk structurally (their parts come from outside the harness)
+    fn shrinks(&self, _case: &Value) -> bool {
+        true
+    }
     /// named predicates over shrunk cases for known-finding attribution
     fn predicate(&self, _name: &str, _case: &Value, _v: &Violation) -> bool {
         false
@@ -445,6 +449,14 @@ pub fn run_check(prop: &dyn Property, tier: Tier) -> i32 {
             }
         }
     }
+    // soundness of the domain predicate used by the shrinker: every generated case is inside it
+    let outside = cases.iter().filter(|c| !prop.in_domain(c)).count();
+    if outside > 0 {
+        let first = cases.iter().find(|c| !prop.in_domain(c)).unwrap();
+        let _ = std::fs::write(format!("/verif/work/outside-{id}.json"), serde_json::to_string_pretty(first).unwrap_or_default());
+        eprintln!("INFRA: {outside} generated case(s) fall outside in_domain (harness inconsistency), e.g. {}", first.to_string().chars().take(600).collect::<String>());
+        return 2;
+    }
     let chunk = prop.chunk();
     let mut evaluations = 0usize;
     let mut distinct: BTreeSet<u64> = BTreeSet::new();
@@ -529,7 +541,8 @@ pub fn run_check(prop: &dyn Property, tier: Tier) -> i32 {
                 Ok(evs) => evs
                     .iter()
                     .map(|e| {
-                        prop.in_domain(&e.case)
+                        prop.shrinks(&c0)
+                            && prop.in_domain(&e.case)
                             && e.violations.iter().any(|v| {
                                 v.symptom == symptom
                                     // never slide from an unlisted failure into the region of a listed finding
